@@ -1,6 +1,9 @@
 """C16 — cancelling a source stops its handler and runs the cancel handler once.
    Model/SrcLife.v (hand: invoke2 phases, wakeup, cancel / cancel_and_wait, global interleaving model, trace monitor);
    Gen_srclife (generated: the rmw loops on dq_atomic_flags of source.c, DSF_* constants, atomic sites)."""
+import glob
+import json
+import os
 import time
 
 import common
@@ -16,17 +19,24 @@ COQ_TIMEOUT = 1500
 TRUSTED = [
     "Model/SrcLife.v is hand-written (phases of _dispatch_source_invoke2 cut at its reads of dq_atomic_flags and at the callouts, "
     "_dispatch_source_wakeup, cancel, cancel_and_wait, event delivery in two halves); tied by (a) the generated rmw bodies of "
-    "Gen_srclife on dq_atomic_flags (interface lemmas over every 32-bit word, C16_*_is_source), (b) the generated atomic-site lists "
-    "of _dispatch_source_invoke2 (43 sites cut into the model's program points), _dispatch_source_wakeup, dispatch_source_cancel, "
-    "dispatch_source_cancel_and_wait, finalize_unregistration and refs_unregister (C16_sites_match_source), (c) per-thread conformance "
+    "Gen_srclife on dq_atomic_flags (interface lemmas over every 32-bit word, C16_*_is_source), (b) per-thread conformance "
     "of every recorded trace of dq_atomic_flags events + callout marks against SrcLife.mon_step inside Coq; the monitor accepts every "
-    "step of the model (C16_monitor_accepts_model), the converse is not claimed, (d) the replay of every recorded round on "
-    "SrcLife.gstep (C16_replay_reach, C16_inv_b_sound), (e) the API-level oracle on the same stress runs",
+    "step of the model (C16_monitor_accepts_model), the converse is not claimed, (c) the matching of every recorded round against "
+    "SrcLife.gstep by the executable, unproved scheduler SrcLifeR.sched, (d) the API-level oracle on the same stress runs",
+    "C16_sites_match_source is a source-drift guard, not a tie of behaviour: the generated atomic-site lists of _dispatch_source_invoke2 "
+    "(43 sites), _dispatch_source_wakeup, dispatch_source_cancel, dispatch_source_cancel_and_wait, finalize_unregistration and "
+    "refs_unregister are compared with a hand-written annotation table (SrcLife.phase_sites) that phase / gstep / mon_step do not use",
+    "the theorems are safety statements: 'exactly once' = at most once, and once the slot of a cancelled source is released the "
+    "count is 1; 'every sleeper is woken' = the step that sets DELETED empties the sleeper set (flag update and wake are one "
+    "model step); 'converges' = all terminal states of a cancelled source are equal; that they are reached is not stated",
     "the theorems are invariants of every reachable state of SrcLife.gstep (any number of threads, any interleaving of cancel / "
     "cancel_and_wait / events / hang-up / release / activation / invoke phases); what they do not cover: that the lane layer "
     "performs the invokes _dispatch_source_wakeup asks for (C01) and that the kernel delivers events (liveness)",
     "finalize_unregistration's flag update and its futex wake are one model step; cancel_and_wait's try-lock is an oracle input",
-    "global replay (Model/SrcLifeR.v, C16_replay_reach / C16_inv_b_sound): every recorded round is executed on SrcLife.gstep itself; "
+    "global replay (Model/SrcLifeR.v): every recorded round is executed on SrcLife.gstep itself by the scheduler SrcLifeR.sched, which is "
+    "evaluated inside Coq but not proved: C16_replay_reach is definitional (the reported state is grun of the performed acts, true for "
+    "any act list) and inv_b on the end state cannot fail (C16_inv_b_sound): what the replay establishes is trace inclusion as "
+    "computed by sched + the end-state comparison of lib/props/c16r.py; "
     "the order of the observations is the recorder's stamps corrected by the exact old->new chain of dq_atomic_flags (a wrong "
     "order can only make a replay fail); reads of ds_handler / ds_pending_data / du_state are not observations (writes are); the "
     "values the model does not compute (orc) are chosen by the scheduler from a short list per program point",
@@ -34,22 +44,37 @@ TRUSTED = [
     "handlers are installed before activation and not replaced afterwards",
 ]
 ASSUMPTIONS = ["Linux/epoll event backend: no direct knotes (unregistration always succeeds, DSF_NEEDS_EVENT never set)",
-               "liveness verdicts (cancel handler ran, source on the reused descriptor fired) use a 20 s bound"]
+               "liveness verdicts (cancel handler ran, source on the reused descriptor fired, final state reached) are taken when the harness "
+               "has seen no callout and no API return for 20 s, and are reported only if the configuration shows them again alone with 200 s"]
 
 TYPES = ["timer", "data_add", "read", "write", "signal"]
 SCENS = ["pre_activate", "post_activate", "from_handler", "from_target_item", "other_thread", "twice", "cancel_and_wait",
-         "cancel_and_wait_pre", "caw_plus_second", "after_hangup", "while_suspended", "from_registration_handler"]
+         "cancel_and_wait_pre", "caw_plus_second", "after_hangup", "while_suspended", "from_registration_handler",
+         "other_thread_at_latch"]
 CANCELED, WAITER, NEEDS_EVENT, DELETED = 1 << 28, 1 << 29, 1 << 30, 1 << 31
 
 
-def run_harness(seed, rounds, permille, first=-1, timeout=600):
+def run_harness(seed, rounds, permille, first=-1, timeout=600, wait_s=0):
+    """one stress run; returns (stdout, error text or None, note or None).  A wall-clock expiry is not a verdict: the run is
+    repeated once, alone, with ten times the limit; only that second outcome counts."""
     exe, msg = common.build_harness("c16_cancel", ["c16_cancel.c"], whitebox=True, extra=["-I" + common.VERIF + "/harness"])
     if exe is None:
         raise RuntimeError("harness build failed: " + msg)
-    r = common.run([exe, str(seed), str(rounds), str(permille), str(first)], timeout=timeout)
+    env = dict(os.environ)
+    if wait_s:
+        env["C16_WAIT_S"] = str(wait_s)
+    cmd = [exe, str(seed), str(rounds), str(permille), str(first)]
+    r = common.run(cmd, timeout=timeout, env=env)
+    note = None
+    if r.returncode == 124:
+        note = "stress run (seed %d) exceeded %d s of wall clock: repeated once with %d s" % (seed, timeout, timeout * 10)
+        r = common.run(cmd, timeout=timeout * 10, env=env)
     if r.returncode != 0:
-        return r.stdout, "harness exited with rc=%s: %s" % (r.returncode, (r.stderr or "")[-800:])
-    return r.stdout, None
+        return r.stdout or "", "harness exited with rc=%s: %s" % (r.returncode, (r.stderr or "")[-800:]), note
+    last = [l for l in (r.stdout or "").split("\n") if l.strip()][-1:]
+    if not last or last[0].split() != ["DONE", str(rounds)]:
+        return r.stdout or "", "harness exited with rc=0 but its output is empty or truncated (no final DONE line)", note
+    return r.stdout, None, note
 
 
 def analyse(text, label, seed, permille):
@@ -72,9 +97,9 @@ def analyse(text, label, seed, permille):
     def bump(k, n=1):
         stats[k] = stats.get(k, 0) + n
 
-    def fail(rd, kind, what):
+    def fail(rd, kind, what, watchdog=False):
         d = rounds[rd]
-        fails.append({"key": "%s:%s:%s:%s" % (label, TYPES[d["type"]], SCENS[d["scen"]], kind),
+        fails.append({"watchdog": watchdog, "key": "%s:%s:%s:%s" % (label, TYPES[d["type"]], SCENS[d["scen"]], kind),
                       "what": "%s source, cancel %s (perturbation %d permille): %s" % (TYPES[d["type"]], SCENS[d["scen"]], permille, what),
                       "seed": seed, "permille": permille, "code": d["type"] * 100 + d["scen"], "round": rd})
 
@@ -133,7 +158,7 @@ def analyse(text, label, seed, permille):
         if d["has_ch"]:
             if d["ch_runs"] != 1 or len(chb) != 1:
                 fail(rd, "ch-count", "the cancellation handler ran %d times (expected exactly once)%s" %
-                     (d["ch_runs"], "; not within 20 s" if d["timeouts"] & 1 else ""))
+                     (d["ch_runs"], "; no run and no progress for 20 s" if d["timeouts"] & 1 else ""), watchdog=bool(d["timeouts"] & 1))
             if chb:
                 c = chb[0]
                 if c.b != 1 or d["ob_ontq"] != 1:
@@ -154,7 +179,7 @@ def analyse(text, label, seed, permille):
             if d["ob_mon"] == 0:
                 bump("epoll_checked")
         if d["reuse"] == 0:
-            fail(rd, "reuse", "a new source on the descriptor number closed and reused in the cancellation handler never fired")
+            fail(rd, "reuse", "a new source on the descriptor number closed and reused in the cancellation handler never fired", watchdog=True)
         if d["reuse"] == 1:
             bump("descriptor_reused")
         # --- convergence: one final state whatever the scenario
@@ -162,7 +187,7 @@ def analyse(text, label, seed, permille):
         if d["timeouts"] & 2 or not (ff & CANCELED) or not (ff & DELETED) or (ff & (WAITER | NEEDS_EVENT)) or d["h0"] or d["h1"] or d["h2"] \
                 or d["du_state"] != 0:
             fail(rd, "final-state", "final state differs: flags=%#x handler slots=%d%d%d du_state=%d (expected CANCELED|DELETED, no "
-                 "waiter/needs-event bit, slots released, unregistered)" % (ff, d["h0"], d["h1"], d["h2"], d["du_state"]))
+                 "waiter/needs-event bit, slots released, unregistered)" % (ff, d["h0"], d["h1"], d["h2"], d["du_state"]), watchdog=bool(d["timeouts"] & 2))
         # --- white-box record: cancel-handler slot taken non-null at most once
         takes = [e for e in allev if e.obj % 8 == 1 and e.kind == 3 and e.off == 8 and e.a != 0 and e.b == 0 and e.seq < endseq]
         if len(takes) > 1:
@@ -180,19 +205,63 @@ def analyse(text, label, seed, permille):
     return fails, traces, stats, rounds
 
 
-def correspond(ctx):
-    plan = [(0, 60), (150, 120), (400, 60)] if ctx.tier == "quick" else [(0, 240), (150, 480), (400, 240), (80, 240)]
-    fails, mism, alltr, total = [], [], [], {}
+def _cleanup(prefix):
+    for f in glob.glob(os.path.join(common.CACHE, "cases", prefix + "_*")) + glob.glob(os.path.join(common.CACHE, "cases", "." + prefix + "_*")):
+        try:
+            os.remove(f)
+        except OSError:
+            pass
+
+
+def _coq_twice(fn):
+    """fn(alone) evaluates something in Coq.  A failed evaluation (time limit, memory, machine load) is repeated once, alone (no
+    parallel coqc) with ten times the limit; returns (result, None) or (None, error text of the second attempt)."""
+    try:
+        return fn(False), None
+    except Exception:
+        try:
+            return fn(True), None
+        except Exception as e:
+            return None, str(e)[-1500:]
+
+
+LIVENESS = ("ch-count", "final-state", "reuse", "not-deleted", "still-registered")
+
+
+def judge_runs(runs, tag):
+    """runs: list of dict(seed, permille, rounds, first, wait_s).  Executes each against the current build and judges it completely:
+    API oracle, per-thread monitor (Coq), global replay (Coq).  Returns dict(fails, mism, total, alltr, notes)."""
+    fails, mism, alltr, total, notes = [], [], [], {}, []
     jobs, jobinfo = [], []
-    for i, (permille, rounds) in enumerate(plan):
-        seed = ctx.seed * 1000 + i
-        text, err = run_harness(seed, rounds, permille)
+    pfx = "c16_%s_%d" % (tag, os.getpid())
+
+    def bump(k, n=1):
+        total[k] = total.get(k, 0) + n
+
+    for run in runs:
+        seed, permille, rounds, first = run["seed"], run["permille"], run["rounds"], run.get("first", -1)
+        rinfo = {"seed": seed, "permille": permille, "rounds": rounds, "first": first}
+        text, err, note = run_harness(seed, rounds, permille, first=first, wait_s=run.get("wait_s", 0))
+        if note:
+            notes.append(note)
         if err:
-            fails.append({"key": "seed%d:crash" % seed, "what": "stress run died (seed %d, perturbation %d): %s" % (seed, permille, err),
-                          "seed": seed, "permille": permille, "code": -1})
-        f, tr, st, rds = analyse(text, "p%d" % permille, seed, permille)
+            fails.append({"key": "seed%d:crash" % seed, "kind": "crash", "run": rinfo,
+                          "what": "stress run died or produced no complete output (seed %d, perturbation %d, %d rounds): %s" % (seed, permille, rounds, err),
+                          "seed": seed, "permille": permille, "code": first, "rounds": rounds, "first": first})
+        try:
+            f, tr, st, rds = analyse(text, "p%d" % permille, seed, permille)
+        except Exception as e:   # an output cut in the middle of a line
+            if not err:
+                mism.append({"what": "the output of a stress run cannot be parsed: %s" % e, "kind": "parse", "run": rinfo, "detail": rinfo})
+            continue
+        for x in f:
+            x.update({"rounds": rounds, "first": first, "run": rinfo, "kind": "oracle"})
         fails += f
-        alltr += [(sv, t, rd, thr, seed) for (sv, t, rd, thr) in tr]
+        bump("rounds_requested", rounds)
+        if not err and len(rds) != rounds:
+            mism.append({"what": "a stress run recorded %d rounds of the %d requested" % (len(rds), rounds), "kind": "floor", "run": rinfo,
+                         "detail": rinfo})
+        alltr += [(sv, t, rd, thr, rinfo) for (sv, t, rd, thr) in tr]
         # the rounds as inputs of the global replay
         other, per = conc.parse_dump(text)
         mgr = [int(l.split()[1]) for l in other if l.startswith("MGR")]
@@ -203,39 +272,105 @@ def correspond(ctx):
         for rd in sorted(rds):
             j = c16r.build(rds[rd], by.get(rd, {}), mgr[0] if mgr else -1) if not err else None
             if j is None:
-                total["rounds_without_replay_input"] = total.get("rounds_without_replay_input", 0) + 1
+                bump("rounds_without_replay_input")
                 if not err:
                     mism.append({"what": "the recorded writes of dq_atomic_flags of a round do not form one old->new chain (or the round has no marks)",
-                                 "detail": {"seed": seed, "round": rd}})
+                                 "kind": "chain", "run": rinfo, "detail": {"seed": seed, "permille": permille, "round": rd,
+                                                                          "type": TYPES[rds[rd]["type"]], "cancel": SCENS[rds[rd]["scen"]]}})
                 continue
             jobs.append(j)
-            jobinfo.append((seed, permille, rds[rd]))
+            jobinfo.append((rinfo, rds[rd]))
         for k, v in st.items():
-            total[k] = total.get(k, 0) + v
-    res = conc.coq_conform("c16_conf", ["Word", "Conc", "Gen_srclife", "SrcLife"], "conform", [(sv, t) for (sv, t, _, _, _) in alltr])
-    for (i, idle), (sv, t, rd, thr, seed) in zip(res, alltr):
+            bump(k, v)
+    # per-thread conformance
+    res, cerr = _coq_twice(lambda alone: conc.coq_conform(pfx + "_conf", ["Word", "Conc", "Gen_srclife", "SrcLife"], "conform",
+                                                         [(sv, t) for (sv, t, _, _, _) in alltr], timeout=9000 if alone else 900))
+    _cleanup(pfx + "_conf")
+    if res is None or len(res) != len(alltr):
+        mism.append({"what": "the Coq evaluation of SrcLife.conform on the recorded traces failed twice (the second time alone, limit x10), "
+                             "or returned %s results for %d traces: no trace was judged" % (None if res is None else len(res), len(alltr)),
+                     "kind": "coq", "run": runs[0] if runs else None, "detail": cerr})
+        res = []
+    bump("traces_judged_by_monitor", len(res))
+    for (i, idle), (sv, t, rd, thr, rinfo) in zip(res, alltr):
         if i != -1 or idle != 1:
             mism.append({"what": "a recorded thread trace of dq_atomic_flags events / callouts is not accepted by the model's monitor "
-                         "(SrcLife.mon_step): the library did something the model does not allow",
-                         "detail": {"seed": seed, "round": rd, "thread": thr, "rejected_at": i, "pending_wake": 1 - idle,
-                                    "trace": [e.brief() for e in t][max(0, i - 8):i + 3]}})
+                         "(SrcLife.mon_step): the library did something the model does not allow", "kind": "monitor", "run": rinfo,
+                         "detail": {"seed": rinfo["seed"], "permille": rinfo["permille"], "round": rd, "thread": thr, "rejected_at": i,
+                                    "pending_wake": 1 - idle, "trace": [e.brief() for e in t][max(0, i - 8):i + 3]}})
     # global replay: every round as a run of SrcLife.gstep
     t0 = time.time()
-    rres = c16r.coq_replay("c16_replay", jobs)
+    rres, rerr = _coq_twice(lambda alone: c16r.coq_replay(pfx + "_replay", jobs, timeout=9000 if alone else 900, workers=1 if alone else 4))
+    _cleanup(pfx + "_replay")
+    if rres is None or len(rres) != len(jobs):
+        mism.append({"what": "the Coq evaluation of SrcLifeR.replay failed twice (the second time alone, limit x10), or returned %s results "
+                             "for %d rounds: no round was replayed" % (None if rres is None else len(rres), len(jobs)),
+                     "kind": "coq", "run": runs[0] if runs else None, "detail": rerr})
+        rres = []
     rp = {"rounds_replayed_as_SrcLife_runs": 0, "model_acts_replayed": 0, "observations_replayed": 0, "rounds_with_late_start_replayed": 0}
-    for j, (seed, permille, rdd), res in zip(jobs, jobinfo, rres):
-        ok, det = c16r.judge(j, rdd, res)
+    for j, (rinfo, rdd), res1 in zip(jobs, jobinfo, rres):
+        ok, det = c16r.judge(j, rdd, res1)
         if ok:
             rp["rounds_replayed_as_SrcLife_runs"] += 1
             rp["model_acts_replayed"] += det["acts"]
             rp["observations_replayed"] += len(j["order"])
             rp["rounds_with_late_start_replayed"] += 1 if det["late_starts"] else 0
         else:
-            det.update({"seed": seed, "permille": permille, "round": j["id"], "type": TYPES[rdd["type"]], "cancel": SCENS[rdd["scen"]]})
+            det.update({"seed": rinfo["seed"], "permille": rinfo["permille"], "round": j["id"], "type": TYPES[rdd["type"]],
+                        "cancel": SCENS[rdd["scen"]], "code": rdd["type"] * 100 + rdd["scen"]})
             mism.append({"what": "a recorded round is not reproduced as a run of the global model SrcLife.gstep (Model/SrcLifeR.v): " + det.get("what", ""),
-                         "detail": det})
+                         "kind": "replay", "run": rinfo, "detail": det})
     rp["replay_seconds"] = round(time.time() - t0, 1)
-    total.update(rp)
+    for k, v in rp.items():
+        total[k] = total.get(k, 0) + v
+    return {"fails": fails, "mism": mism, "total": total, "alltr": alltr, "notes": notes}
+
+
+def liveness_recheck(fails, total, notes):
+    """a verdict that rests on the harness's no-progress watchdog (the cancel handler did not run, the final state was not reached, the
+    reused descriptor did not fire) is reported only if that configuration shows it again when run alone with ten times the
+    no-progress window"""
+    keep, seen = [], {}
+    for f in fails:
+        if f.get("kind") != "oracle" or not f.get("watchdog"):
+            keep.append(f)
+            continue
+        code = f["code"]
+        if code not in seen and len(seen) < 3:
+            r = judge_runs([{"seed": f["seed"], "permille": f["permille"], "rounds": 12, "first": code, "wait_s": 200}], "live")
+            seen[code] = [x for x in r["fails"] if x.get("watchdog") or x.get("kind") == "crash"]
+        if seen.get(code, [True]):
+            keep.append(f)
+        else:
+            total["watchdog_verdicts_not_reproduced_alone"] = total.get("watchdog_verdicts_not_reproduced_alone", 0) + 1
+            notes.append("inconclusive (not reported): '%s' rested on the 20 s no-progress watchdog and did not show again in 12 rounds of "
+                         "that configuration run alone with a 200 s window" % f["what"])
+    return keep
+
+
+def correspond(ctx):
+    plan = [(0, 65), (150, 130), (400, 65)] if ctx.tier == "quick" else [(0, 260), (150, 520), (400, 260), (80, 260)]
+    runs = [{"seed": ctx.seed * 1000 + i, "permille": permille, "rounds": rounds, "first": -1} for i, (permille, rounds) in enumerate(plan)]
+    r = judge_runs(runs, "chk")
+    fails, mism, total, alltr, notes = r["fails"], r["mism"], r["total"], r["alltr"], r["notes"]
+    fails = liveness_recheck(fails, total, notes)
+    # floors: what was actually recorded, judged and replayed (not what was asked for)
+    crashed = any(f.get("kind") == "crash" for f in fails)
+    if not crashed:
+        floor = []
+        if total.get("rounds", 0) == 0:
+            floor.append("no round was recorded")
+        if not alltr or total.get("traces_judged_by_monitor", 0) == 0:
+            floor.append("no thread trace was recorded and judged by the monitor")
+        if total.get("rounds_replayed_as_SrcLife_runs", 0) + sum(1 for m in mism if m.get("kind") == "replay") == 0:
+            floor.append("no round was replayed on the global model")
+        if total.get("handler_runs", 0) == 0 or total.get("flag_writes", 0) == 0:
+            floor.append("no event handler invocation / no write of dq_atomic_flags was recorded (hook compiled out?)")
+        if total.get("scen_" + SCENS[12], 0) >= 5 and total.get("rounds_with_late_start_replayed", 0) == 0 and not mism:
+            floor.append("no replayed round contains an event handler start after CANCELED was set although %d rounds of the scenario "
+                         "that forces one were run: the clause about late starts was not exercised" % total.get("scen_" + SCENS[12], 0))
+        for x in floor:
+            mism.append({"what": "floor: " + x, "kind": "floor", "run": runs[0], "detail": {"distribution": dict(total)}})
     # one failure per distinct key
     seen, uniq = set(), []
     for f in fails:
@@ -244,40 +379,85 @@ def correspond(ctx):
             uniq.append(f)
     distinct = len(set(tuple((e.kind, e.ok & 1) for e in t) for (_, t, _, _, _) in alltr))
     samples = [{"kind_bits": sv, "trace": [e.brief() for e in t][:30]} for (sv, t, _, _, _) in alltr[:4]]
-    return {"evaluations": len(alltr), "distinct_nontrivial": distinct,
+    return {"evaluations": total.get("traces_judged_by_monitor", 0), "distinct_nontrivial": distinct,
             "rule": "stress rounds through the public API: one source per round (timer, DATA_ADD, read pipe, write pipe, signal) on a "
                     "fresh serial target queue with a queue-specific marker, events fed continuously, cancel injected at each "
                     "life-cycle point (before activate, right after, from the handler, from an item on the target queue, from another "
                     "thread, twice, cancel_and_wait, cancel_and_wait before activation, two cancel_and_wait / cancel callers, after "
-                    "peer hang-up, while suspended), perturbation 0/15/40 percent inside the library's atomic operations; oracle on "
+                    "peer hang-up, while suspended, from the registration handler, from another thread held exactly between the "
+                    "owner's read of dq_atomic_flags and the handler start), perturbation 0/15/40 percent inside the library's atomic "
+                    "operations; oracle on "
                     "stamps (handler starts vs cancel call/return, cancel handler exactly once / on the target queue / after the last "
                     "handler end / nothing after it), white-box state at the cancellation point (CANCELED|DELETED, du_state 0, "
                     "descriptor absent from the epoll set via /proc/self/fdinfo, descriptor closed and its number reused by a new "
                     "source that must fire), one final state; every per-thread trace of dq_atomic_flags events + callout marks is "
-                    "replayed through SrcLife.mon_step inside Coq; every round (all threads, all five tracked words) is replayed as a run of "
-                    "the global model by SrcLifeR.sched inside Coq and the boolean invariant inv_b is evaluated on its end state; "
-                    "distinct = distinct trace shapes",
-            "samples": samples, "distribution": total, "traces_validated_against_impl": len(alltr),
-            "mismatches": mism[:20], "failures": uniq[:20]}
+                    "run through SrcLife.mon_step inside Coq; every round (all threads, all five tracked words) is matched against "
+                    "the global model by the executable scheduler SrcLifeR.sched inside Coq (the scheduler is not proved: a round "
+                    "counts as replayed when all its observations were consumed as model steps with the recorded outcomes and the "
+                    "end state equals the recorded final state); the boolean invariant inv_b on that end state is a self-check of "
+                    "the tooling (by C16_inv_b_sound it cannot fail on a completed replay); evaluations = traces judged by the "
+                    "monitor, distinct = distinct trace shapes",
+            "samples": samples, "distribution": total, "traces_validated_against_impl": total.get("traces_judged_by_monitor", 0),
+            "mismatches": mism[:20], "failures": uniq[:20], "notes": notes}
 
 
 def replay(ctx, obj):
-    rc = 0
+    """re-executes every recorded failing run (same seed, perturbation, round count, first-round code) against the current build and
+    judges it again completely (oracle, monitor, global replay); then, for an entry that names one configuration, 30 rounds of
+    that configuration.  1: a failure shows again; 0: nothing shows; 2: nothing in the file could be executed."""
+    entries = []
     for f in obj.get("failures", []):
-        print("recorded failure:", f.get("what"))
-        code = f.get("code", -1)
-        text, err = run_harness(f.get("seed", 1), 30, f.get("permille", 150), first=code)
-        if err:
-            print("  re-run:", err)
-            rc = 1
-            continue
-        f2, _, _, _ = analyse(text, "replay", f.get("seed", 1), f.get("permille", 150))
-        print("  re-run of 30 rounds of that configuration: %d failing checks" % len(f2))
-        for x in f2[:5]:
-            print("    ", x["what"])
-        if f2:
-            rc = 1
+        entries.append(("failure", f.get("what"), f.get("run") or ({"seed": f["seed"], "permille": f.get("permille", 150), "rounds": f.get("rounds", 30),
+                                                                   "first": f.get("first", f.get("code", -1))} if "seed" in f else None),
+                        f.get("code", -1), f.get("key", "").split(":")[-1]))
+    dead = []
     for b in obj.get("broken", []):
-        print("no longer checks:", b)
-        rc = 1
-    return rc
+        d = b.get("detail") if isinstance(b, dict) else None
+        if isinstance(b, dict) and b.get("what") == "correspondence" and isinstance(d, dict) and isinstance(d.get("run"), dict):
+            dd = d.get("detail") if isinstance(d.get("detail"), dict) else {}
+            entries.append(("mismatch (%s)" % d.get("kind", "?"), d.get("what"), d["run"], dd.get("code", -1), d.get("kind", "?")))
+        else:
+            dead.append(b)
+    done, hits, executed = {}, 0, 0
+
+    def execute(run, label):
+        key = (run["seed"], run["permille"], run["rounds"], run.get("first", -1))
+        if key not in done:
+            print("  re-run %s: seed %d, perturbation %d permille, %d rounds, first-round code %d" % ((label,) + key))
+            r = judge_runs([dict(run)], "rep")
+            r["fails"] = liveness_recheck(r["fails"], r["total"], r["notes"])
+            done[key] = r
+            for x in r["fails"][:6]:
+                print("    failing check:", x["what"])
+            for m in r["mism"][:6]:
+                print("    mismatch:", m["what"], json.dumps(m.get("detail"), default=str)[:600])
+            for n in r["notes"]:
+                print("    note:", n)
+            print("    -> %d rounds, %d traces judged, %d rounds replayed: %d failing checks, %d mismatches" % (
+                r["total"].get("rounds", 0), r["total"].get("traces_judged_by_monitor", 0),
+                r["total"].get("rounds_replayed_as_SrcLife_runs", 0), len(r["fails"]), len(r["mism"])))
+        r = done[key]
+        return len(r["fails"]) + len(r["mism"])
+
+    for kind, what, run, code, tag in entries:
+        print("recorded %s: %s" % (kind, what))
+        if not run:
+            dead.append({"what": kind, "detail": what})
+            continue
+        executed += 1
+        n = execute(run, "of the recorded run")
+        if n == 0 and isinstance(code, int) and code >= 0 and run.get("first", -1) < 0:
+            n = execute({"seed": run["seed"], "permille": run["permille"], "rounds": 30, "first": code}, "of 30 rounds of that configuration")
+        if n:
+            print("  reproduces")
+            hits += 1
+        else:
+            print("  does not reproduce")
+    for b in dead:
+        print("no longer checked (nothing to execute for this entry; only a full ./check C16 re-establishes it):",
+              json.dumps(b, default=str)[:1500])
+    if hits:
+        return 1
+    if executed:
+        return 0
+    return 2
